@@ -57,6 +57,64 @@ def step_extract():
     return rc == 0, out.strip()
 
 
+def step_translate():
+    """regenerate lean/BS/Generated/Core.lean from the Rust sources (tools/rs2lean.py).
+    Returns (names of functions that are no longer translatable, tool output)"""
+    rc, out = run([sys.executable, os.path.join(VERIF, "tools", "rs2lean.py")])
+    lost = re.findall(r"not translated: (\w+):", out)
+    if rc not in (0, 3):
+        lost.append("<translator crashed>")
+    return lost, out.strip()
+
+
+TIE_FILE = os.path.join(LEAN, "BS", "Proofs", "GenTie.lean")
+
+
+def tie_status(untranslated):
+    """build BS.Proofs.GenTie (the theorems `translated function = model function`).
+    Returns (broken, lost, witness_lines): tie theorems whose proof no longer checks, tie theorems
+    that cannot even be stated because a function fell outside the translator's subset (or
+    depend on one that cannot), and what the function-level search found"""
+    ok, out = step_lake(["BS.Proofs.GenTie"])
+    if ok:
+        return [], [], []
+    lines = open(TIE_FILE, encoding="utf-8").read().split("\n")
+    starts = [(i + 1, m.group(1)) for i, l in enumerate(lines) for m in [re.match(r"(?:@\[simp\] )?theorem (\S+)", l)] if m]
+    def owner(ln):
+        name = None
+        for st, nm in starts:
+            if st <= ln:
+                name = nm
+        return name
+    def text_of(nm):
+        idx = [k for k, (st, n2) in enumerate(starts) if n2 == nm][0]
+        a = starts[idx][0] - 1
+        b = starts[idx + 1][0] - 1 if idx + 1 < len(starts) else len(lines)
+        return "\n".join(lines[a:b])
+    failing = []
+    for m in re.finditer(r"GenTie\.lean:(\d+):\d+: error", out):
+        nm = owner(int(m.group(1)))
+        if nm and nm not in failing:
+            failing.append(nm)
+    core_broken = bool(re.search(r"Generated/Core\.lean:\d+:\d+: error", out)) or "BS.Generated.Core" in "".join(re.findall(r"✖ \[\d+/\d+\] Building (\S+)", out))
+    if core_broken:
+        return [], [nm for _, nm in starts], ["the translated file BS/Generated/Core.lean does not elaborate: " + out[-400:]]
+    lost = []
+    lost_words = set(untranslated)
+    for _, nm in starts:          # file order: a theorem that mentions something lost is lost
+        if nm in failing and any(re.search(r"\b" + re.escape(w) + r"\b", text_of(nm)) for w in lost_words):
+            lost.append(nm)
+            lost_words.add(nm)
+    broken = [nm for nm in failing if nm not in lost]
+    witness = []
+    if broken:
+        rc, o2 = run(["lake", "env", "lean", "--run", "GenDiff.lean"], cwd=LEAN, timeout=900)
+        witness = [l[:600] for l in o2.splitlines() if l.startswith("DIFF")][:12]
+        if rc != 0 and not witness:
+            witness = ["function-level search did not run: " + o2[-300:]]
+    return broken, lost, witness
+
+
 def step_lake(targets):
     rc, out = run(["lake", "build"] + targets, cwd=LEAN, timeout=3600)
     return rc == 0, out
@@ -210,6 +268,18 @@ def check_property(pid, tier, seed):
         ok, out = step_extract()
         if not ok:
             proof_broken.append("constants extractor: " + out)
+        untranslated, tr_out = step_translate()
+        ties = cfg.get("ties", [])
+        tie_broken, tie_lost, tie_witness = tie_status(untranslated) if ties else ([], [], [])
+        tie_broken = [t for t in tie_broken if t in ties]
+        tie_lost = [t for t in tie_lost if t in ties]
+        if tie_broken:
+            proof_broken.append("tie by translation broken: the Rust function(s) behind " + ", ".join(tie_broken) +
+                                " (BS/Proofs/GenTie.lean) no longer equal the model's; function-level search: " +
+                                (" | ".join(tie_witness) if tie_witness else "no differing argument found on the grid"))
+        if tie_lost:
+            notes.append("tie by translation not available for " + ", ".join(tie_lost) + " (source outside the translator's subset: " +
+                         "; ".join(l for l in tr_out.splitlines() if "not translated" in l)[:300] + "); the correspondence check carries the tie, searching harder")
         targets = ["driver"] + cfg.get("lean_modules", [])
         ok, out = step_lake(targets)
         lake_ok = ok
@@ -222,8 +292,9 @@ def check_property(pid, tier, seed):
             if not ok2:
                 notes.append("driver does not build")
         axioms, problems = ({}, [])
+        tie_thms = [("BS.Proofs.GenTie", "BS.Gen." + t) for t in ties] if ties and not tie_broken and not tie_lost else []
         if lake_ok:
-            axioms, problems = audit_axioms(cfg.get("theorems", []))
+            axioms, problems = audit_axioms(cfg.get("theorems", []) + tie_thms)
             proof_broken += problems
         hits = grep_forbidden()
         if hits:
@@ -255,7 +326,7 @@ def check_property(pid, tier, seed):
     # further rounds of the thorough generators with fresh seeds: one in the quick tier, three when
     # the sources differ from the tree the model was written against (the correspondence has to be
     # re-established on changed code), eight in the thorough tier
-    rounds = 8 if tier == "thorough" else (3 if changed else 1)
+    rounds = 8 if tier == "thorough" else (3 if (changed or tie_lost) else 1)
     if changed:
         log("sources differ from the modelled tree (" + ", ".join(changed[:4]) + "): searching harder")
     seen = {sc for _, sc in generated}
@@ -356,7 +427,7 @@ def check_property(pid, tier, seed):
     for kf, r in known_hits:
         print(f"KNOWN-FINDING: property={pid} {kf.get('text', '')}")
     # ---- 7: evidence
-    thms = cfg.get("theorems", [])
+    thms = cfg.get("theorems", []) + [("BS.Proofs.GenTie", "BS.Gen." + t) for t in ties]
     obligations = len(thms)
     discharged = sum(1 for _, nme in thms if nme in axioms and all(a in ALLOWED_AXIOMS for a in axioms[nme])) if lake_ok else 0
     samples = [{"generator": n, "script_head": judge.script_ops(s)[:6], "ops": len(judge.script_ops(s))} for n, s, _ in results[n_corpus:n_corpus + 3]]
@@ -367,7 +438,11 @@ def check_property(pid, tier, seed):
             "checker_cmd": f"cd lean && lake build {' '.join(cfg.get('lean_modules', []))} && lake env lean <#print axioms of each theorem>" + (" && lake env leanchecker <modules>" if tier == "thorough" else ""),
             "trusted_base": ["Lean 4.33 kernel", "axioms: propext, Classical.choice, Quot.sound only (audited per theorem on this run)",
                              "statement of BS/Spec.lean and of the property theorems", "correspondence check: bsrun + judge.py + generators (sampling)",
-                             "tools/extract_consts.py regular expressions", "OS/std behaviour as listed in DESIGN.md §10"],
+                             "tools/extract_consts.py regular expressions",
+                             "tools/rs2lean.py + tools/rsparse.py (syntactic Rust-to-Lean translation of the decision/arithmetic core) and the std vocabulary of BS/Impl/GenPrelude.lean",
+                             "OS/std behaviour as listed in DESIGN.md §10"],
+            "translated_functions_tied": ties,
+            "translation_tie": ("broken: " + ", ".join(tie_broken)) if tie_broken else (("not available: " + ", ".join(tie_lost)) if tie_lost else ("checked" if ties else "none for this property")),
             "theorems": [{"name": nme, "module": m, "axioms": axioms.get(nme)} for m, nme in thms],
             "partial": cfg.get("partial", []),
             "evaluations": len(results), "distinct_nontrivial": len(distinct),
@@ -399,6 +474,7 @@ def replay(path):
     cfg = props.PROPS[pid]
     with BuildLock():
         step_extract()
+        step_translate()
         step_lake(["driver"])
         step_cargo()
     script = rep.get("script") or ""
@@ -429,6 +505,7 @@ def main():
     if a.what == "build":
         with BuildLock():
             ok1, o1 = step_extract()
+            step_translate()
             ok2, o2 = step_lake([])
             ok3, o3 = step_cargo()
         if not (ok1 and ok2 and ok3):
